@@ -76,6 +76,7 @@ def _load():
     from .oracles.c06 import C06, C07
     from .oracles.c03 import C03
     from .oracles.c08 import C08
+    from .oracles.c09 import C09
 
     wide = profile()
     faulty = profile(f_zero=0.8, f_infarr=0.3, f_batch0=0.8, qcap=0.7, sched=0.35, renege=0.4, batch=0.4)
@@ -91,6 +92,8 @@ def _load():
                      B(60000, 800000)))
 
 
+    NOREROUTE = dict(preempt_opts=[False, "resume", "restart", "resample"],
+                     sched_pre_opts=[False, False, "resume", "restart", "resample"])
     register(Profile("C03", [C03], [(2, wide), (1, faulty), (1, profile(prio=0.8, preempt=0.8, sched=0.4, renege=0.5, jockey=0.6, qcap=0.6))],
                      "distinct history digest; non-trivial = >=1 customer with >=2 records",
                      B(40000, 500000)))
@@ -108,6 +111,12 @@ def _load():
                     qcap=0.4, batch=0.4, renege=0.2, inf=0.05, slot=0.0, ps=0.0, n=[1, 1, 2, 3])
     register(Profile("C08", [C08], [(1, order)],
                      "distinct history digest; non-trivial = >=1 discipline decision among >=2 waiting customers of >=2 classes",
+                     B(40000, 400000)))
+    rout = profile(n=[2, 2, 3, 4], route_kinds={"matrix": 0.25, "net": 0.45, "pb": 0.15, "fpb": 0.15}, ccm=0.4, cct=0.1, qcap=0.3,
+                   jockey=0.0, ps=0.05, slot=0.05, **NOREROUTE)
+    rout_b = dict(rout, f_boundary=0.05)
+    register(Profile("C09", [C09], [(2, rout), (1, rout_b)],
+                     "distinct history digest; non-trivial = >=1 routing decision checked (per-router-kind and unequal-queue JSQ/LB decision counters reported)",
                      B(40000, 400000)))
     cap = profile(qcap=0.9, qcap_vals=[INF, 0, 0, 1, 2, 3], syscap=0.4, batch=0.5, baulk=0.4, renege=0.3, jockey=0.5, n=[1, 2, 2, 3], **NOREROUTE)
     register(Profile("C06", [C06], [(1, cap)],
